@@ -17,6 +17,7 @@ pub struct MemOperand {
 
 #[derive(Debug, Copy, Clone, PartialEq, Eq)]
 pub enum SupportedSegmentRegister {
+    CS,
     DS,
     ES,
     SS,
@@ -29,6 +30,8 @@ impl TryFrom<iced_x86::Register> for SupportedSegmentRegister {
 
     fn try_from(value: iced_x86::Register) -> Result<Self, Self::Error> {
         match value {
+            // A CS override is a null prefix in 64-bit mode (the segment base is zero)
+            iced_x86::Register::CS => Ok(SupportedSegmentRegister::CS),
             iced_x86::Register::DS => Ok(SupportedSegmentRegister::DS),
             iced_x86::Register::ES => Ok(SupportedSegmentRegister::ES),
             iced_x86::Register::SS => Ok(SupportedSegmentRegister::SS),
